@@ -49,7 +49,7 @@ import (
 
 const gmsmPath = "github.com/tjfoc/gmsm/"
 
-var concPkgs = []string{"sm3", "sm2", "sm4", "x509", "gmtls"} // dependency order
+var concPkgs = []string{"sm3", "sm2", "sm4", "x509", "pkcs12", "gmtls"} // dependency order
 
 // object types that the property shares between goroutines
 var sharedTypes = map[string]bool{
